@@ -179,6 +179,35 @@ def templates(tier):
     files = build("diamond", LAYOUTS["diamond"], "use")
     main = files.pop("main.sy").replace("c.K", "a.K")
     out.append({"name": "transitive_name_not_reexported", "role": "name-not-imported(transitive)", "text": main, "files": files, "ref_text": BASE, "dom": {"a": (0, 3), "b": (0, 3)}, "expect": "reject"})
+    out += extra_templates()
+    return out
+
+
+def extra_templates():
+    """hand-written layouts: user modules named like bundled std modules in sub-folders; multi-hop namespace paths for values and types"""
+    out = []
+    # (1) util/math.sy, util/list.sy, lib/set.sy, a/b/dict/exports.sy are the USER's files, not the bundled std modules of the same name
+    # (plain `use util/list` would name the namespace `list`, which legitimately collides with the bundled `list` every file imports)
+    for style in ("use_as", "from", "root"):
+        imp = {
+               "use_as": ("use util/math as m1\nuse util/list as m2\nuse lib/set as m3\nuse a/b/dict/ as m4\n", "m1.", "m2.", "m3.", "m4."),
+               "from": ("from util/math use (twice)\nfrom util/list use (K)\nfrom lib/set use (P, mk)\nfrom a/b/dict/ use (last)\n", "", "", "", ""),
+               "root": ("use /util/math as r1\nuse /util/list as r2\nfrom /lib/set use (P, mk)\nuse /a/b/dict/ as r4\n", "r1.", "r2.", "", "r4.")}[style]
+        main = imp[0] + "start :: fn do\n    print(%stwice(?b))\n    print(%sK)\n    p: %sP = %smk(2)\n    print(p.x)\n    print(%slast(?b))\nend\n" % (imp[1], imp[2], imp[3], imp[3], imp[4])
+        files = {"util/math.sy": "twice :: fn n: int -> int do\n    ret n * 2 + 1\nend\n", "util/list.sy": "K :: ?a\n",
+                 "lib/set.sy": "P :: blob {\n    x: int,\n}\nmk :: fn n: int -> P do\n    ret P { x: n + 5 }\nend\n", "a/b/dict/exports.sy": "last :: fn n: int -> int do\n    ret n - 1\nend\n"}
+        ref = "twice :: fn n: int -> int do\n    ret n * 2 + 1\nend\nK :: ?a\nP :: blob {\n    x: int,\n}\nmk :: fn n: int -> P do\n    ret P { x: n + 5 }\nend\nlast :: fn n: int -> int do\n    ret n - 1\nend\nstart :: fn do\n    print(twice(?b))\n    print(K)\n    p: P = mk(2)\n    print(p.x)\n    print(last(?b))\nend\n"
+        out.append({"name": "std_named_user_modules_" + style, "role": "user-module-named-like-std(%s)" % style, "text": main, "files": files, "ref_text": ref, "dom": {"a": (0, 3), "b": (0, 3)}, "expect": "accept"})
+    # (2) multi-hop namespace paths: shapes.point.Point / shapes.point.mk, with a decoy of the same name in the importing file
+    for decoy in (False, True):
+        main = "use shapes\n" + ("Point :: blob {\n    x: int,\n    y: int,\n}\nmk :: fn n: int -> int do\n    ret 0 - n\nend\n" if decoy else "") + \
+               "start :: fn do\n    p: shapes.point.Point = shapes.point.Point { x: ?a }\n    print(p.x)\n    print(shapes.point.mk(?b).x)\n    print(shapes.point.K)\n    print(shapes.side(p))\n" + \
+               ("    q := Point { x: 1, y: 2 }\n    print(q.y)\n    print(mk(?b))\n" if decoy else "") + "end\n"
+        files = {"shapes.sy": "use point\nside :: fn p: point.Point -> int do\n    ret p.x * 2\nend\n", "point.sy": "K :: 7\nPoint :: blob {\n    x: int,\n}\nmk :: fn n: int -> Point do\n    ret Point { x: n + K }\nend\n"}
+        ref = "K :: 7\nPoint :: blob {\n    x: int,\n}\nmk :: fn n: int -> Point do\n    ret Point { x: n + K }\nend\nside :: fn p: Point -> int do\n    ret p.x * 2\nend\n" + \
+              ("Point2 :: blob {\n    x: int,\n    y: int,\n}\nmk2 :: fn n: int -> int do\n    ret 0 - n\nend\n" if decoy else "") + \
+              "start :: fn do\n    p: Point = Point { x: ?a }\n    print(p.x)\n    print(mk(?b).x)\n    print(K)\n    print(side(p))\n" + ("    q := Point2 { x: 1, y: 2 }\n    print(q.y)\n    print(mk2(?b))\n" if decoy else "") + "end\n"
+        out.append({"name": "namespace_chain" + ("_with_decoy" if decoy else ""), "role": "multi-hop-namespace-path" + ("(decoy)" if decoy else ""), "text": main, "files": files, "ref_text": ref, "dom": {"a": (0, 3), "b": (0, 3)}, "expect": "accept"})
     return out
 
 
